@@ -1,1 +1,524 @@
-//! verification hooks used by the check of property C02
+//! verification hooks used by the check of property C02 (and shared with C16)
+//!
+//! * a canonical, name-independent text form of `DType`, `Type`, `TypeScheme` (dimension types as
+//!   factor lists with exponents `n/d`, never readable names),
+//! * a parser for the same text form, so that the harness can build real `Constraint`s from a plain
+//!   description and run the real `ConstraintSet::add` / `ConstraintSet::solve`,
+//! * the canonical types of the statements a `Context::interpret` call returned, and of identifiers in
+//!   the type checker's environment.
+//!
+//! Text form
+//!   exponent   `n/d`            (d > 0, lowest terms, always with denominator)
+//!   factor     `v:NAME^n/d`     TVar(Named) | `q:I^n/d` TVar(Quantified) | `b:NAME^n/d` base dimension |
+//!              `p:NAME^n/d`     type parameter
+//!   type       `v:NAME` | `q:I` | `p:NAME` | `B` | `S` | `T` | `(d factor*)` | `(fn type* -> type)` |
+//!              `(l type)` | `(st NAME (type*) (field type)*)`
+//!   constraint `(eq type type)` | `(isd type)` | `(es factor*)` | `(hf type FIELD type)`
+//!   scheme     `(mono type)` | `(forall N (type*) type)`      (the middle list are the `Dim` bounds)
+//! Everything in here only reads.
+
+use std::sync::Arc;
+
+use compact_str::CompactString;
+use indexmap::IndexMap;
+
+use crate::arithmetic::Exponent;
+use crate::span::{ByteIndex, Span};
+use crate::type_variable::TypeVariable;
+use crate::typechecker::qualified_type::Bound;
+use crate::typechecker::type_scheme::TypeScheme;
+use crate::typechecker::verif_c02::{
+    ApplySubstitution, Constraint, ConstraintSet, ConstraintSolverError, Substitution,
+    SubstitutionError, TrivialResolution,
+};
+use crate::typed_ast::{DType, DTypeFactor, DefineVariable, Statement, StructInfo, StructKind, Type};
+
+// ------------------------------------------------------------------ printing
+
+pub fn exp_text(e: &Exponent) -> String {
+    format!("{}/{}", e.numer(), e.denom())
+}
+
+pub fn tvar_text(v: &TypeVariable) -> String {
+    match v {
+        TypeVariable::Named(n) => format!("v:{n}"),
+        TypeVariable::Quantified(i) => format!("q:{i}"),
+    }
+}
+
+pub fn factor_text(f: &DTypeFactor) -> String {
+    match f {
+        DTypeFactor::TVar(v) => tvar_text(v),
+        DTypeFactor::TPar(n) => format!("p:{n}"),
+        DTypeFactor::BaseDimension(n) => format!("b:{n}"),
+    }
+}
+
+pub fn factors_text(d: &DType) -> String {
+    d.factors()
+        .iter()
+        .map(|(f, e)| format!("{}^{}", factor_text(f), exp_text(e)))
+        .collect::<Vec<_>>()
+        .join(" ")
+}
+
+pub fn dtype_text(d: &DType) -> String {
+    if d.factors().is_empty() {
+        "(d)".to_string()
+    } else {
+        format!("(d {})", factors_text(d))
+    }
+}
+
+pub fn type_text(t: &Type) -> String {
+    match t {
+        Type::TVar(v) => tvar_text(v),
+        Type::TPar(n) => format!("p:{n}"),
+        Type::Dimension(d) => dtype_text(d),
+        Type::Boolean => "B".into(),
+        Type::String => "S".into(),
+        Type::DateTime => "T".into(),
+        Type::Fn(ps, r) => {
+            let mut s = String::from("(fn");
+            for p in ps {
+                s.push(' ');
+                s.push_str(&type_text(p));
+            }
+            s.push_str(" -> ");
+            s.push_str(&type_text(r));
+            s.push(')');
+            s
+        }
+        Type::List(e) => format!("(l {})", type_text(e)),
+        Type::Struct(info) => {
+            let args = match &info.kind {
+                StructKind::Instance(a) => a.iter().map(type_text).collect::<Vec<_>>().join(" "),
+                StructKind::Definition(ps) => ps
+                    .iter()
+                    .map(|(_, n, _)| format!("p:{n}"))
+                    .collect::<Vec<_>>()
+                    .join(" "),
+            };
+            let mut s = format!("(st {} ({})", info.name, args);
+            for (n, (_, t)) in info.fields.iter() {
+                s.push_str(&format!(" ({} {})", n, type_text(t)));
+            }
+            s.push(')');
+            s
+        }
+    }
+}
+
+pub fn scheme_text(s: &TypeScheme) -> String {
+    match s {
+        TypeScheme::Concrete(t) => format!("(mono {})", type_text(t)),
+        TypeScheme::Quantified(n, qt) => {
+            let bounds = qt
+                .bounds
+                .iter()
+                .map(|Bound::IsDim(t)| type_text(t))
+                .collect::<Vec<_>>()
+                .join(" ");
+            format!("(forall {} ({}) {})", n, bounds, type_text(&qt.inner))
+        }
+    }
+}
+
+pub fn constraint_text(c: &Constraint) -> String {
+    match c {
+        Constraint::Equal(a, b) => format!("(eq {} {})", type_text(a), type_text(b)),
+        Constraint::IsDType(t) => format!("(isd {})", type_text(t)),
+        Constraint::EqualScalar(d) => {
+            if d.factors().is_empty() {
+                "(es)".to_string()
+            } else {
+                format!("(es {})", factors_text(d))
+            }
+        }
+        Constraint::HasField(s, f, t) => format!("(hf {} {} {})", type_text(s), f, type_text(t)),
+    }
+}
+
+pub fn substitution_text(s: &Substitution) -> String {
+    s.0.iter()
+        .map(|(v, t)| format!("{}:={}", tvar_text(v), type_text(t)))
+        .collect::<Vec<_>>()
+        .join(" ; ")
+}
+
+// ------------------------------------------------------------------ parsing
+
+fn tokens(s: &str) -> Vec<String> {
+    let mut out = Vec::new();
+    let mut cur = String::new();
+    for c in s.chars() {
+        if c == '(' || c == ')' {
+            if !cur.is_empty() {
+                out.push(std::mem::take(&mut cur));
+            }
+            out.push(c.to_string());
+        } else if c.is_whitespace() {
+            if !cur.is_empty() {
+                out.push(std::mem::take(&mut cur));
+            }
+        } else {
+            cur.push(c);
+        }
+    }
+    if !cur.is_empty() {
+        out.push(cur);
+    }
+    out
+}
+
+struct P {
+    t: Vec<String>,
+    i: usize,
+}
+
+impl P {
+    fn peek(&self) -> Option<&str> {
+        self.t.get(self.i).map(|s| s.as_str())
+    }
+    fn next(&mut self) -> Option<String> {
+        let r = self.t.get(self.i).cloned();
+        self.i += 1;
+        r
+    }
+    fn expect(&mut self, s: &str) -> Option<()> {
+        if self.next()? == s { Some(()) } else { None }
+    }
+}
+
+fn parse_exp(s: &str) -> Option<Exponent> {
+    let (n, d) = match s.split_once('/') {
+        Some((n, d)) => (n.parse::<i128>().ok()?, d.parse::<i128>().ok()?),
+        None => (s.parse::<i128>().ok()?, 1),
+    };
+    if d == 0 {
+        return None;
+    }
+    Some(Exponent::new(n, d))
+}
+
+fn parse_tvar(s: &str) -> Option<TypeVariable> {
+    if let Some(n) = s.strip_prefix("v:") {
+        Some(TypeVariable::new(n))
+    } else if let Some(i) = s.strip_prefix("q:") {
+        Some(TypeVariable::Quantified(i.parse().ok()?))
+    } else {
+        None
+    }
+}
+
+fn parse_factor(s: &str) -> Option<(DTypeFactor, Exponent)> {
+    let (f, e) = match s.rsplit_once('^') {
+        Some((f, e)) => (f, parse_exp(e)?),
+        None => (s, Exponent::from_integer(1)),
+    };
+    let f = if let Some(n) = f.strip_prefix("b:") {
+        DTypeFactor::BaseDimension(n.into())
+    } else if let Some(n) = f.strip_prefix("p:") {
+        DTypeFactor::TPar(n.into())
+    } else {
+        DTypeFactor::TVar(parse_tvar(f)?)
+    };
+    Some((f, e))
+}
+
+/// factors up to the closing parenthesis (which is consumed); the list is *not* canonicalised here
+fn parse_raw_factors(p: &mut P) -> Option<Vec<(DTypeFactor, Exponent)>> {
+    let mut fs = Vec::new();
+    loop {
+        let t = p.next()?;
+        if t == ")" {
+            return Some(fs);
+        }
+        fs.push(parse_factor(&t)?);
+    }
+}
+
+fn dummy_span() -> Span {
+    Span {
+        start: ByteIndex(0),
+        end: ByteIndex(0),
+        code_source_id: 0,
+    }
+}
+
+fn parse_type(p: &mut P) -> Option<Type> {
+    let t = p.next()?;
+    match t.as_str() {
+        "B" => Some(Type::Boolean),
+        "S" => Some(Type::String),
+        "T" => Some(Type::DateTime),
+        "(" => {
+            let head = p.next()?;
+            match head.as_str() {
+                "d" => {
+                    let fs = parse_raw_factors(p)?;
+                    Some(Type::Dimension(DType::from_factors(Arc::new(fs))))
+                }
+                "fn" => {
+                    let mut ps = Vec::new();
+                    while p.peek()? != "->" {
+                        ps.push(parse_type(p)?);
+                    }
+                    p.expect("->")?;
+                    let r = parse_type(p)?;
+                    p.expect(")")?;
+                    Some(Type::Fn(ps, Box::new(r)))
+                }
+                "l" => {
+                    let e = parse_type(p)?;
+                    p.expect(")")?;
+                    Some(Type::List(Box::new(e)))
+                }
+                "st" => {
+                    let name = p.next()?;
+                    p.expect("(")?;
+                    let mut args = Vec::new();
+                    while p.peek()? != ")" {
+                        args.push(parse_type(p)?);
+                    }
+                    p.expect(")")?;
+                    let mut fields: IndexMap<CompactString, (Span, Type)> = IndexMap::new();
+                    while p.peek()? != ")" {
+                        p.expect("(")?;
+                        let f = p.next()?;
+                        let ft = parse_type(p)?;
+                        p.expect(")")?;
+                        fields.insert(f.into(), (dummy_span(), ft));
+                    }
+                    p.expect(")")?;
+                    Some(Type::Struct(Box::new(StructInfo {
+                        definition_span: dummy_span(),
+                        name: name.into(),
+                        kind: StructKind::Instance(args),
+                        fields,
+                    })))
+                }
+                _ => None,
+            }
+        }
+        s => {
+            if let Some(n) = s.strip_prefix("p:") {
+                Some(Type::TPar(n.into()))
+            } else {
+                Some(Type::TVar(parse_tvar(s)?))
+            }
+        }
+    }
+}
+
+fn parse_constraint(p: &mut P) -> Option<Constraint> {
+    p.expect("(")?;
+    let head = p.next()?;
+    match head.as_str() {
+        "eq" => {
+            let a = parse_type(p)?;
+            let b = parse_type(p)?;
+            p.expect(")")?;
+            Some(Constraint::Equal(a, b))
+        }
+        "isd" => {
+            let a = parse_type(p)?;
+            p.expect(")")?;
+            Some(Constraint::IsDType(a))
+        }
+        "es" => {
+            let fs = parse_raw_factors(p)?;
+            Some(Constraint::EqualScalar(DType::from_factors(Arc::new(fs))))
+        }
+        "hf" => {
+            let a = parse_type(p)?;
+            let f = p.next()?;
+            let b = parse_type(p)?;
+            p.expect(")")?;
+            Some(Constraint::HasField(a, f.into(), b))
+        }
+        _ => None,
+    }
+}
+
+pub fn parse_type_text(s: &str) -> Option<Type> {
+    let mut p = P { t: tokens(s), i: 0 };
+    let t = parse_type(&mut p)?;
+    if p.i == p.t.len() { Some(t) } else { None }
+}
+
+pub fn parse_constraints_text(s: &str) -> Option<Vec<Constraint>> {
+    let mut p = P { t: tokens(s), i: 0 };
+    let mut cs = Vec::new();
+    while p.peek().is_some() {
+        cs.push(parse_constraint(&mut p)?);
+    }
+    Some(cs)
+}
+
+// ------------------------------------------------------------------ the real solver, driven from text
+
+fn subst_error_text(e: &SubstitutionError) -> String {
+    match e {
+        SubstitutionError::SubstitutedNonDTypeWithinDType(t) => {
+            format!("subst-error {}", type_text(t))
+        }
+    }
+}
+
+/// Adds the described constraints one by one with the real `ConstraintSet::add` (which drops trivially
+/// satisfied ones) and runs the real `ConstraintSet::solve`.
+///
+/// Answer: `triv=<S|V|U per constraint> ok <substitution> | dv <sorted dtype variables>`
+///      or `triv=… err could-not-solve <remaining non-dtype-variable constraints>`
+///      or `triv=… err subst-error <type>`;  `bad-request` if the text does not parse.
+pub fn solve(desc: &str) -> String {
+    let Some(cs) = parse_constraints_text(desc) else {
+        return "bad-request".into();
+    };
+    let mut set = ConstraintSet::default();
+    let mut triv = String::new();
+    for c in cs {
+        triv.push(match set.add(c) {
+            TrivialResolution::Satisfied => 'S',
+            TrivialResolution::Violated => 'V',
+            TrivialResolution::Unknown => 'U',
+        });
+    }
+    match set.solve() {
+        Ok((s, dv)) => format!(
+            "triv={} ok {} | dv {}",
+            triv,
+            substitution_text(&s),
+            dv.iter().map(tvar_text).collect::<Vec<_>>().join(" ")
+        ),
+        Err(ConstraintSolverError::CouldNotSolve(_)) => {
+            // the set holds the constraints the loop stopped at; the error lists those that are not
+            // `IsDType(variable)`
+            let rest: Vec<String> = set
+                .iter()
+                .filter(|c| {
+                    !matches!(
+                        c,
+                        Constraint::IsDType(Type::TVar(_)) | Constraint::IsDType(Type::TPar(_))
+                    )
+                })
+                .map(constraint_text)
+                .collect();
+            format!("triv={} err could-not-solve {}", triv, rest.join(" "))
+        }
+        Err(ConstraintSolverError::SubstitutionError(e)) => {
+            format!("triv={} err {}", triv, subst_error_text(&e))
+        }
+    }
+}
+
+/// `DType` algebra on raw (uncanonicalised) factor lists: `canon fs`, `mul fs | fs`, `div fs | fs`,
+/// `pow n/d fs`; answer: canonical factor list
+pub fn dtype_op(desc: &str) -> String {
+    let (op, rest) = match desc.split_once(' ') {
+        Some(x) => x,
+        None => (desc, ""),
+    };
+    let fs = |s: &str| -> Option<DType> {
+        let mut v = Vec::new();
+        for t in s.split_whitespace() {
+            v.push(parse_factor(t)?);
+        }
+        Some(DType::from_factors(Arc::new(v)))
+    };
+    let r = match op {
+        "canon" => fs(rest),
+        "mul" | "div" => rest.split_once('|').and_then(|(a, b)| {
+            let (a, b) = (fs(a)?, fs(b)?);
+            Some(if op == "mul" { a.multiply(&b) } else { a.divide(&b) })
+        }),
+        "pow" => rest
+            .trim_start()
+            .split_once(' ')
+            .or(Some((rest.trim(), "")))
+            .and_then(|(e, a)| Some(fs(a)?.power(parse_exp(e)?))),
+        _ => None,
+    };
+    match r {
+        Some(d) => factors_text(&d),
+        None => "bad-request".into(),
+    }
+}
+
+/// applies a substitution `v:X:=type ; v:Y:=type` (in this order, as `Substitution(vec)`) to a type
+pub fn apply_subst(subst: &str, ty: &str) -> String {
+    let mut s = Substitution::empty();
+    for part in subst.split(';') {
+        let part = part.trim();
+        if part.is_empty() {
+            continue;
+        }
+        let Some((v, t)) = part.split_once(":=") else {
+            return "bad-request".into();
+        };
+        let (Some(v), Some(t)) = (parse_tvar(v.trim()), parse_type_text(t.trim())) else {
+            return "bad-request".into();
+        };
+        s.0.push((v, t));
+    }
+    let Some(mut t) = parse_type_text(ty) else {
+        return "bad-request".into();
+    };
+    match t.apply(&s) {
+        Ok(()) => type_text(&t),
+        Err(e) => format!("err {}", subst_error_text(&e)),
+    }
+}
+
+// ------------------------------------------------------------------ types of checked statements
+
+/// one line per typed statement: `let NAME scheme` | `fn NAME scheme` | `unit NAME scheme` |
+/// `expr scheme` | `dimension NAME` | `struct NAME` | `proc`
+pub fn statement_types(stmts: &[Statement]) -> Vec<String> {
+    stmts
+        .iter()
+        .map(|s| match s {
+            Statement::Expression(e) => format!("expr {}", scheme_text(&e.get_type_scheme())),
+            Statement::DefineVariable(DefineVariable {
+                name, type_scheme, ..
+            }) => format!("let {} {}", name, scheme_text(type_scheme)),
+            Statement::DefineFunction {
+                function_name,
+                fn_type,
+                ..
+            } => format!("fn {} {}", function_name, scheme_text(fn_type)),
+            Statement::DefineDimension(name, _) => format!("dimension {name}"),
+            Statement::DefineBaseUnit {
+                name, type_scheme, ..
+            } => format!("unit {} {}", name, scheme_text(type_scheme)),
+            Statement::DefineDerivedUnit {
+                name, type_scheme, ..
+            } => format!("unit {} {}", name, scheme_text(type_scheme)),
+            Statement::ProcedureCall { .. } => "proc".to_string(),
+            Statement::DefineStruct(info) => format!("struct {}", info.name),
+        })
+        .collect()
+}
+
+impl crate::Context {
+    /// canonical type scheme of an identifier in the type checker's environment (what later uses see)
+    pub fn verif_c02_env_type(&self, name: &str) -> Option<String> {
+        self.typechecker
+            .lookup_identifier_type(name)
+            .map(|s| scheme_text(&s))
+    }
+
+    /// base representation of a named dimension as canonical factor text
+    pub fn verif_c02_dimension(&self, name: &str) -> Option<String> {
+        self.dimension_registry()
+            .get_base_representation_for_name(name)
+            .ok()
+            .map(|br| factors_text(&DType::from(br)))
+    }
+
+    /// the number the next fresh type variable `T<n>` will get
+    pub fn verif_c02_name_counter(&self) -> u64 {
+        self.typechecker.verif_c02_name_counter()
+    }
+}
